@@ -936,7 +936,8 @@ impl Domain for D {
             }
             writeln!(w, "hash_ph_pack 255 256").unwrap();
             for f in 0..5 {
-                writeln!(w, "hash_chv_pack {} {} {}", f, f + 1, if thorough { 1 } else { 64 }).unwrap();
+                // flags >= 4: every tuple panics in pack (assertion); a coarser size step is enough there
+                writeln!(w, "hash_chv_pack {} {} {}", f, f + 1, if thorough && f < 4 { 1 } else { 64 }).unwrap();
                 // sizes with bits 4 and 5 set, every sequence number
                 for s in [16u32, 32, 48, 63, 64, 4095] {
                     for q in [0u32, 255, 256, 1023] {
@@ -1028,6 +1029,27 @@ impl Domain for D {
                 }
             }
 
+    // the compression decision boundary: payloads whose compressed form is exactly as long as,
+    // one byte shorter or one byte longer than the payload ("compressed iff strictly shorter")
+    for kind in 0..6u64 {
+        let mut found = 0;
+        for n in 1..400usize {
+            let mut r2 = Rng::new(seed ^ (kind << 32) ^ n as u64);
+            let d: Vec<u8> = match kind {
+                0 => (0..n).map(|_| r2.below(16) as u8).collect(),
+                1 => (0..n).map(|_| r2.below(8) as u8 * 3).collect(),
+                2 => (0..n).map(|_| if r2.chance(1, 2) { 0 } else { r2.next() as u8 }).collect(),
+                3 => (0..n).map(|_| b"etaoin shrdlu\0"[r2.below(14) as usize]).collect(),
+                4 => (0..n).map(|_| if r2.chance(1, 3) { 0 } else { r2.below(32) as u8 }).collect(),
+                _ => (0..n).map(|i| if i % 3 == 0 { r2.next() as u8 } else { 0 }).collect(),
+            };
+            let cl = HUFFMAN.compressed_len(&d);
+            if cl + 1 >= d.len() && cl <= d.len() + 1 && found < 12 {
+                found += 1;
+                writeln!(w, "write 1400 {}", spec_str(&Spec::Chunks(7, TOKEN_NONE, false, 1, d.clone()))).unwrap();
+            }
+        }
+    }
             // ---- outside `Valid`: refusals, panics; small buffers ----
             for _ in 0..150 * scale {
                 let mut s = gen_valid_spec(&mut rng);
